@@ -396,5 +396,5 @@ T('C04-T-indexed-view-tuple-forms', 'C04', (DERIVED_PY, "            view = list
 
 # C12.h - F38 (protocol-3 joins) must be reported again if it returns
 STATE_PY_ = 'glue/core/state.py'
-W('C12-W-v3-joins-bare-identifiers', 'C12', 'C12.h', (STATE_PY_, "    result._key_joins = dict((context.object(k), ((context.object(v0),), (context.object(v1),)))", "    result._key_joins = dict((context.object(k), (context.object(v0), context.object(v1)))"))
-T('C12-T-v3-joins-tuple-call', 'C12', (STATE_PY_, "    result._key_joins = dict((context.object(k), ((context.object(v0),), (context.object(v1),)))", "    result._key_joins = dict((context.object(k), (tuple([context.object(v0)]), tuple([context.object(v1)])))"))
+W('C12-W-v3-joins-bare-identifiers', 'C12', 'C12.h', (STATE_PY_, "        return cids if isinstance(cids, tuple) else (cids,)\n", "        return cids\n"))
+T('C12-T-v3-joins-tuple-or-list', 'C12', (STATE_PY_, "        return cids if isinstance(cids, tuple) else (cids,)\n", "        return cids if isinstance(cids, (tuple, list)) else (cids,)\n"))
